@@ -160,6 +160,46 @@ def recipes(bct):
         Wu = Wu + Wu.T
         Wu[0, 1] = Wu[1, 0] = -1.0
         add('null_model_und_sign', 'frozen_pattern', lambda seed, Wu=Wu: bct.null_model_und_sign(Wu.copy(), 5, .5, seed=seed))
+    # networks with structurally equivalent nodes: candidate moves tie exactly, and that is where a tie-break draws
+    def _sym_nets():
+        ring = np.zeros((8, 8))
+        for i in range(8):
+            ring[i, (i + 1) % 8] = ring[(i + 1) % 8, i] = 1
+        kb = np.zeros((7, 7))
+        kb[:3, 3:] = 1
+        kb[3:, :3] = 1
+        tc = np.zeros((8, 8))
+        tc[:4, :4] = 1
+        tc[4:, 4:] = 1
+        tc[3, 4] = tc[4, 3] = 1
+        np.fill_diagonal(tc, 0)
+        dring = np.zeros((8, 8))
+        for i in range(8):
+            dring[i, (i + 1) % 8] = 1
+            dring[i, (i + 3) % 8] = 1
+        return (('ring8', ring), ('k34', kb), ('two_cliques', tc), ('dir_circulant8', dring))
+    for nm, X in _sym_nets():
+        und = bool(np.array_equal(X, X.T))
+        add('core_periphery_dir', 'equivalent_nodes_' + nm, lambda seed, X=X: bct.core_periphery_dir(X.copy(), seed=seed))
+        add('community_louvain', 'equivalent_nodes_' + nm, lambda seed, X=X: bct.community_louvain(X.copy(), seed=seed))
+        if und:
+            for f in ('modularity_louvain_und', 'modularity_finetune_und', 'modularity_louvain_und_sign', 'modularity_finetune_und_sign',
+                      'modularity_probtune_und_sign'):
+                add(f, 'equivalent_nodes_' + nm, lambda seed, f=f, X=X: getattr(bct, f)(X.copy(), seed=seed))
+            add('randmio_und', 'equivalent_nodes_' + nm, lambda seed, X=X: bct.randmio_und(X.copy(), 2, seed=seed))
+            add('latmio_und', 'equivalent_nodes_' + nm, lambda seed, X=X: bct.latmio_und(X.copy(), 2, seed=seed))
+        else:
+            for f in ('modularity_louvain_dir', 'modularity_finetune_dir'):
+                add(f, 'equivalent_nodes_' + nm, lambda seed, f=f, X=X: getattr(bct, f)(X.copy(), seed=seed))
+            add('randmio_dir', 'equivalent_nodes_' + nm, lambda seed, X=X: bct.randmio_dir(X.copy(), 2, seed=seed))
+            add('latmio_dir', 'equivalent_nodes_' + nm, lambda seed, X=X: bct.latmio_dir(X.copy(), 2, seed=seed))
+    # agreement matrices without any block structure: the consensus loop needs several passes (one stream must
+    # run through all of them)
+    for nn, tau, reps, sd in ((30, .5, 5, 1), (30, .7, 5, 2), (40, .6, 4, 3), (40, .5, 6, 4), (50, .6, 3, 5), (30, .6, 8, 6)):
+        rn = np.random.RandomState(1000 + sd)
+        Dn = np.triu(rn.rand(nn, nn), 1)
+        Dn = Dn + Dn.T
+        add('consensus_und', 'noise_n%d_tau%.1f' % (nn, tau), lambda seed, X=Dn, tau=tau, reps=reps: bct.consensus_und(X.copy(), tau, reps=reps, seed=seed))
     big = 230
     rs = np.random.RandomState(99)
     Sb = rs.randn(big, big)
